@@ -139,7 +139,22 @@ PLANTS = {
     "compare_chain": ["if 0 <= x < 3:", "    x = 50"],
     "unary_plus": ["x = +x"],
     "array_aug": ["xs = array(1, 2, 3)", "xs[1] += x", "result(\"xs\", xs)"],
+    # --- unary operators on every operand type: either Python's value or a rejection, never the operand itself
+    "unary_plus_bool": ["result(\"u\", +p)"], "unary_minus_bool": ["result(\"u\", -p)"], "invert_bool": ["result(\"u\", ~p)"],
+    "unary_plus_float": ["f = +(x / 2)", "result(\"f\", f)"], "unary_minus_float": ["f = -(x / 2)", "result(\"f\", f)"],
+    "unary_minus_int": ["x = -x"], "unary_minus_const_expr": ["x = -(2 + x)"], "unary_plus_cmp": ["result(\"u\", +(x > 1))"],
+    "not_bool": ["q = not p", "result(\"q\", q)"],
+    # CPython raises TypeError on every input: there is no semantics a statically typed language could give them
+    "unary_plus_tuple": ["t = (x, 1)", "u = +t", "x = u[0]"], "unary_minus_tuple": ["t = (x, 1)", "u = -t", "x = u[0]"],
+    "invert_float": ["f = ~(x / 2)", "result(\"f\", f)"], "unary_plus_array": ["xs = array(1, 2)", "ys = +xs", "x = ys[0]"],
+    "unary_plus_none": ["n = None", "m = +n", "x = x + 1"], "unary_plus_str": ["m = +\"a\"", "x = x + 1"],
+    "unary_plus_fn": ["g = +h1", "x = g(x, p)"], "unary_minus_fn": ["g = -h1", "x = g(x, p)"],
+    "unary_plus_range": ["for k in +range(2):", "    x += k"],
 }
+# plants on which CPython raises TypeError whatever the input (checked at run time): accepting one means that part
+# of it was dropped or reinterpreted
+TYPE_ERROR_PLANTS = {"unary_plus_tuple", "unary_minus_tuple", "invert_float", "unary_plus_array", "unary_plus_none",
+                     "unary_plus_str", "unary_plus_fn", "unary_minus_fn", "unary_plus_range"}
 
 CONTEXTS = {
     "body": "@guppy\ndef main(a: int, b: int, p: bool) -> int:\n    x = a\n{P4}\n    result(\"x\", x)\n    return x\n",
@@ -195,6 +210,9 @@ def run(ctx):
                 if r["py"].get("mustreject"):
                     ctx.violation(f"construct:{c['plant']}", f"`{c['plant']}` ({c['context']}) accepted although MustReject {r['py']['mustreject']}",
                                   {"case": c})
+                elif c["plant"] in TYPE_ERROR_PLANTS and all("TypeError" in (x.get("skip") or "") for x in r["py"].get("runs", [])):
+                    ctx.violation(f"construct:{c['plant']}", f"`{c['plant']}` ({c['context']}) is accepted by Guppy although CPython raises TypeError "
+                                  f"on every input ({r['py']['runs'][0]['skip']}): part of the construct was dropped or reinterpreted", {"case": c})
                 else:
                     raise lib.Machinery(f"no oracle for accepted plant {c['id']}: {d}")
             elif r["impl"]["status"] in ("crash", "invalid"):
